@@ -294,6 +294,9 @@ class Array(metaclass=MetaArray):
             else:
                 nshape.append(dd)
 
+        # python integers: sizes and field offsets derive from the extents
+        # (the C generator only accumulates offsets of type int)
+        nshape = [dd if dd is None else int(dd) for dd in nshape]
         suffix = get_suffix(nshape)
 
         name = f"Arr{suffix}{itemtype.__name__}"
